@@ -78,7 +78,7 @@ CHECKS = {
             "§5 C07"),
     "C11": ("model_checking",
             "exhaustive enumeration of storage twins: every catalogue value x object-stream position x trailing white-space as a full product with bounded deviations of filter, /First padding, neighbour kinds and update placement; real files resolved through the real reader",
-            "Every value kind is placed both as a direct object and inside an object stream (only/first/middle/last, each trailing white-space form incl. none at the end of the stream data, 5 object-stream filters, /First beyond the header or with no separator at all, every neighbour kind, plain and encrypted documents) and both references must resolve to the producer's value; stream data must not depend on whether /Length is direct, an indirect direct-object integer (before/after) or an integer inside an object stream.",
+            "Every value kind is placed both as a direct object and inside an object stream (only/first/middle/last, each trailing white-space form incl. none at the end of the stream data, 5 object-stream filters, /First beyond the header or with no separator at all, every neighbour kind, plain and encrypted documents) and both references must resolve to the producer's value; in a document that is being modified, a twin that was read, replaced and read again yields the new value whichever way it was stored; stream data must not depend on whether /Length is direct, an indirect direct-object integer (before/after) or an integer inside an object stream.",
             "Trusted: the assembler's object-stream writer. Bound: <=1 (quick) / <=2 (thorough) simultaneous deviations of filter/padding/neighbours.",
             "§5 C11"),
     "C02": ("model_checking",
@@ -93,7 +93,7 @@ CHECKS = {
             "§5 C04"),
     "C03": ("model_checking",
             "deviation-bounded exhaustive exploration of the choice tree of a specification-conformant printer (every spelling within <=1/<=2 deviations of the canonical one), each leaf parsed by the real parser and compared with the printer's input value",
-            "All values of the catalogue (every kind, all ordered kind pairs, nesting to depth 20) x 5 parse entry contexts are a full product; spelling freedoms (11 separator kinds incl. comments, number forms, string escapes/octal/continuations/raw EOLs, hex forms, #xx) are explored exhaustively up to 1 (quick) / 2 (thorough, 3 on atoms) simultaneous deviations; sequences check that each parse consumes exactly its own text.",
+            "All values of the catalogue (every kind, all ordered kind pairs, nesting to depth 20) x 5 parse entry contexts are a full product; spelling freedoms (11 separator kinds incl. comments, number forms, string escapes/octal/continuations/raw EOLs, hex forms incl. odd digits with inner white-space, #xx) are explored exhaustively up to 1 (quick; 2 on atoms alone) / 2 (thorough, 3 on atoms) simultaneous deviations; sequences check that each parse consumes exactly its own text.",
             "Trusted: the producer's printer (ISO 32000-1 7.2/7.3). Not covered: more simultaneous deviations than the bound, values outside the catalogue, non-UTF-8 names, >32-bit integers.",
             "§5 C03"),
     "C05": ("model_checking",
